@@ -258,7 +258,7 @@ async def e2e(net, hyg, plan):
         names = []
         for i in range(n):
             name = rng.choice(["f", "data", "x y", "a.b", "UP", "deep", "notes; final", "a;b", "k=v; ", "size=1;type=dir; ", " lead", "a -> b",
-                               "Jan 01  2020 ", "12:34 ", "<DIR> ", "1,024 "]) + str(i)
+                               "Jan 01  2020 ", "12:34 ", "<DIR> ", "1,024 ", "café ", "naïve ü", "ÿ¡"]) + str(i)
             typ = rng.choice(["file", "file", "dir"])
             size = rng.choice([0, 1, 511, 4096, 2 ** 31, 2 ** 40, rng.randrange(10 ** 9)]) if typ == "file" else 0
             off = rng.choice([0, 59, 3600, 86400 * 3, H - 86400 * 2, H + 86400 * 2, 86400 * 400, 86400 * 3000, -3600, -86400 * 30,
@@ -274,6 +274,9 @@ async def e2e(net, hyg, plan):
         srv_kwargs = {}
         w = W.World(net)
         # replace the factory by the stat-overriding back end
+        enc = plan.get("encoding")      # both sides configured with the same non-default encoding
+        if enc:
+            srv_kwargs["encoding"] = enc
         w.server = aioftp.Server([aioftp.User(base_path="/")], path_io_factory=FakeStat, **srv_kwargs)
         fb = plan["fallback"]
         if fb in (True, "both", "no_mlsd"):
@@ -282,7 +285,7 @@ async def e2e(net, hyg, plan):
             del w.server.commands_mapping["mlst"]
         D = plan.get("dirname", "dir")
         await w.server.start("127.0.0.1", 2121)
-        c = aioftp.Client(path_io_factory=aioftp.MemoryPathIO)
+        c = aioftp.Client(path_io_factory=aioftp.MemoryPathIO, **({"encoding": enc} if enc else {}))
         await c.connect("127.0.0.1", 2121)
         await c.login()
         if n > 16:
@@ -358,6 +361,72 @@ async def e2e(net, hyg, plan):
         _Clock.now = None
 
 
+async def fs_listing(net, hyg, plan):
+    """PathIO / AsyncPathIO on a real directory: every entry once, exact type, size and (MLSD) modification second"""
+    import shutil, tempfile
+    rng = random.Random(plan["seed"])
+    viol = []
+    mon = {"mlsx_entries": 0, "list_entries": 0, "stat_entries": 0, "fs_listings": 1}
+    enc = plan.get("encoding")
+    root = tempfile.mkdtemp(prefix="aioftp-verif-c07-")
+    try:
+        entries = {}
+        os.mkdir(os.path.join(root, "dir"))
+        year = 365 * 86400
+        for i in range(plan["n"]):
+            name = rng.choice(["f", "data", "x y", "a.b", "café ", "naïve ü", "k=v; ", " lead"]) + str(i)
+            typ = rng.choice(["file", "file", "dir"])
+            size = rng.choice([0, 1, 511, 4096, 70000]) if typ == "file" else 0
+            mtime = int(time.time()) - rng.randrange(2 * year, 20 * year)      # long ago: ls prints the year, day precision
+            fp = os.path.join(root, "dir", name)
+            if typ == "dir":
+                os.mkdir(fp)
+            else:
+                with open(fp, "wb") as f:
+                    f.write(b"x" * size)
+            os.utime(fp, (mtime, mtime))
+            entries[name] = (typ, size, mtime)
+        factory = aioftp.PathIO if plan["fs"] == "pathio" else aioftp.AsyncPathIO
+        server = aioftp.Server([aioftp.User(base_path=root)], path_io_factory=factory, **({"encoding": enc} if enc else {}))
+        if plan["fallback"] == "no_mlsd":
+            del server.commands_mapping["mlsd"]
+        await server.start("127.0.0.1", 2121)
+        c = aioftp.Client(path_io_factory=aioftp.MemoryPathIO, **({"encoding": enc} if enc else {}))
+        await c.connect("127.0.0.1", 2121)
+        await c.login()
+        now = int(time.time())
+
+        def judge(kind, listed):
+            want_names = sorted(entries)
+            got_names = sorted(str(p.name) for p, info in listed)
+            if got_names != want_names:
+                miss = sorted(set(want_names) - set(got_names))
+                extra = sorted(set(got_names) - set(want_names))
+                viol.append({"key": f"{kind}-entry-set-differs:{plan['fs']}",
+                             "msg": f"{kind} on {plan['fs']} (encoding {enc}): {len(want_names)} entries on disk, {len(got_names)} listed; "
+                                    f"missing {miss[:4]} invented {extra[:4]}"})
+                return
+            for p_, info in listed:
+                typ, size, mtime = entries[p_.name]
+                mon["mlsx_entries" if kind == "mlsd" else "list_entries"] += 1
+                if info.get("type") != typ or (typ == "file" and str(info.get("size")) != str(size)):
+                    viol.append({"key": f"{kind}-type-or-size-wrong:{plan['fs']}", "msg": f"{p_.name}: {info} vs {(typ, size)}"})
+                want = time.strftime("%Y%m%d%H%M%S", time.gmtime(mtime)) if kind == "mlsd" else expected_ls(mtime, now)
+                if info.get("modify") != want:
+                    viol.append({"key": f"{kind}-modify-wrong:{plan['fs']}", "msg": f"{p_.name}: modify {info.get('modify')} vs {want}"})
+        if plan["fallback"] == "no_mlsd":
+            judge("list-fallback", await c.list("/dir"))
+        else:
+            judge("mlsd", await c.list("/dir"))
+            judge("list", await c.list("/dir", raw_command="LIST"))
+        await c.quit()
+        await server.close()
+        return {"violations": viol[:6], "monitors": mon, "sig": sig_of(["fs", plan]), "nontrivial": plan["n"] >= 2,
+                "sample": {"fs": plan["fs"], "entries": plan["n"], "encoding": enc}}
+    finally:
+        shutil.rmtree(root, ignore_errors=True)
+
+
 def run_case(case):
     if case["kind"] == "func":
         return func_case(case)
@@ -366,7 +435,7 @@ def run_case(case):
     out = {"violations": [], "monitors": {}, "sigs": []}
     for plan in case["plans"]:
         async def main(net, hyg, plan=plan):
-            return await e2e(net, hyg, plan)
+            return await (fs_listing if plan.get("fs") else e2e)(net, hyg, plan)
         res, info = W.run(main, seed=plan["seed"], net_kwargs=dict(latency=0.0005))
         if res is None:
             return W.failed(info)
@@ -401,7 +470,12 @@ def gen_cases(tier, seed):
         plans.append({"seed": seed * 7 + i, "n": rng.choice([0, 1, 2, 3, 5, 8, 12, 31, 32, 33, 34, 65, 100, 257]),
                       "fallback": [False, "both", "no_mlsd", "no_mlst", False, "both"][i % 6], "order": ["list-first", "stat-first"][(i // 6) % 2],
                       "dirname": rng.choice(["dir", "dir", "-tmp", "-la", "d ir", "-R"]), "relative": rng.random() < 0.5,
-                      "now": rng.choice(special) if i % 2 else rng.randrange(946684800, 2208988800)})
+                      "now": rng.choice(special) if i % 2 else rng.randrange(946684800, 2208988800),
+                      "encoding": [None, None, "latin-1"][i % 3]})
+    # the file-system back ends on a real directory (entries with real sizes and mtimes set by utime)
+    for i in range(12 if tier == "quick" else 200):
+        plans.append({"fs": ["pathio", "async"][i % 2], "seed": seed * 11 + i, "n": rng.choice([0, 1, 5, 31, 32, 33, 34, 64, 65, 66, 100, 130]),
+                      "encoding": [None, "latin-1"][(i // 2) % 2], "fallback": [False, "no_mlsd"][(i // 4) % 2]})
     per = 10
     for j, i in enumerate(range(0, len(plans), per)):
         cases.append({"kind": "e2e", "tz": ["UTC", "IST-5:30", "EST5EDT"][j % 3], "plans": plans[i:i + per]})
